@@ -25,7 +25,8 @@ RULE = ("all (d1,d2,overwrite) of spec/DictUtils.tla's bounded universes (TLC en
 
 CI = impl.CaseInsensitiveOrderedDict
 STR = {0: "", 1: "ab", 2: "abc", 3: "b"}   # interned text: id order = sort order; 1 and 3 are substrings of 2; 0 is falsy
-INT = {0: 0, 1: 1, 2: 2}
+# interned numbers: id order = numeric order, but not the order of their texts (digit counts, signs, a float)
+INT = {-2: -10, -1: -2, 0: 0, 1: 1, 2: 2, 3: 3.5, 4: 12, 5: 500, 6: 1000, 7: 25000}
 VARIANTS = ("plain", "mapfile")
 JVM = {"JAVA_TOOL_OPTIONS": "-XX:ParallelGCThreads=2 -XX:CICompilerCount=2"}
 NEGATIVE = {"noneReplaces": ("u", "UpdateLaws"), "ignoreOverwrite": ("u", "UpdateLaws"),
@@ -301,8 +302,11 @@ def expected_text(case):
 
 
 def check_findkey(ck, case, variant):
+    if case.get("only", "both") not in ("both", variant):
+        return
     d = build(case["d"], variant)
-    path = [p["k"] if p["t"] == "key" else p["i"] - 1 for p in case["path"]]
+    up = case.get("kc") == "U"
+    path = [(p["k"].upper() if up else p["k"]) if p["t"] == "key" else p["i"] - 1 for p in case["path"]]
     repro = [HEAD[variant], "d = %s" % py(case["d"], variant), "print(mappyfile.findkey(d, *%r))" % (path,)]
     info = {"variant": variant, "case": case, "python": repro}
     want = d
@@ -311,15 +315,23 @@ def check_findkey(ck, case, variant):
     try:
         res = impl.dictutils.findkey(d, *path)
     except Exception as ex:  # noqa: BLE001
-        ck.violation("C18|findkey|%s|raised-%s" % (variant, type(ex).__name__), "findkey(d, *%r) raised %s" % (path, ex), info)
+        ck.violation("C18|findkey|%s|%s|raised-%s" % (variant, path_class(case), type(ex).__name__),
+                     "findkey(d, *%r) raised %s: %s" % (path, type(ex).__name__, ex), info)
         return
     df = diff(case["res"], res)
     if df or (res is not want and isinstance(res, (Mapping, list))):
-        ck.violation("C18|findkey|%s|result|depth=%d" % (variant, len(path)),
+        ck.violation("C18|findkey|%s|%s|result" % (variant, path_class(case)),
                      "findkey(d, *%r): %s" % (path, df[2] if df else "returned a copy, not the element"), info)
     df = diff(case["d"], d)
     if df:
         ck.violation("C18|findkey|%s|argument-changed" % variant, "findkey changed its argument at %s" % (list(df[0]),), info)
+
+
+def path_class(case):
+    ks = [p["k"] for p in case["path"] if p["t"] == "key"]
+    if case.get("kc") == "U":
+        return "upper-case-path"
+    return "mixed-case-key" if any(k != k.lower() for k in ks) else "lower-case-path"
 
 
 # ----------------------------------------------------------------------------- TLC jobs
